@@ -171,6 +171,109 @@ def run_tags(spec):
     return Out(ok=True, nontrivial=True, key="%s|%s|%s|%s" % (spec["opt"], key, val, spec["load"]), classes=["tag:" + key, "load" if spec["load"] else "phonopy"])
 
 
+# tags that select what the command computes: two of them compete for the run mode and their precedence is not documented,
+# so at most one of them takes part in a mixed specification (all other settings are independent of each other)
+RUNMODE = {"TPROP", "TDISP", "TDISPMAT", "TDISPMAT_CIF", "ANIME", "QPOINTS", "BAND", "DOS", "PDOS", "IRREPS", "MODULATION",
+           "CREATE_DISPLACEMENTS", "MOMENT", "RANDOM_DISPLACEMENTS", "DEBYE_MODEL", "BAND_CONNECTION", "MESH", "MP"}
+EXCLUSIVE = [RUNMODE, {"PROJECTION_DIRECTION", "XYZ_PROJECTION"}]
+
+
+@st.composite
+def mixed_specs(draw, tier):
+    """Several documented settings at once, each given either in the configuration file or on the command line."""
+    pairs = doc_pairs()
+    idx = draw(st.lists(st.integers(0, len(pairs) - 1), min_size=2, max_size=4, unique=True))
+    items, seen = [], set()
+    for i in idx:
+        opts, tags = pairs[i]
+        tag = draw(st.sampled_from(tags))
+        key = tag.split("=")[0].strip()
+        if key in seen or ("=" not in tag and tag not in GRAMMAR) or any(key in g and seen & g for g in EXCLUSIVE):
+            continue
+        seen.add(key)
+        it = {"opt": draw(st.sampled_from(opts)), "tag": tag, "in_conf": draw(st.booleans())}
+        if "=" not in tag:
+            it["value"] = draw(GRAMMAR[tag])
+        items.append(it)
+    return {"items": items, "load": draw(st.booleans())}
+
+
+def _optargv(it):
+    tag = it["tag"]
+    if "=" in tag:
+        return [it["opt"]]
+    if tag == "BAND_LABELS":
+        return [it["opt"]] + it["value"].split()
+    if tag in BOOL_TAGS:
+        return [it["opt"]]
+    return [it["opt"], it["value"]]
+
+
+def _confline(it):
+    tag = it["tag"]
+    return tag if "=" in tag else "%s = %s" % (tag, it["value"])
+
+
+def run_tags_mixed(spec):
+    import contextlib
+    import io
+
+    from phonopy.cui.phonopy_argparse import get_parser
+    from phonopy.cui.settings import PhonopyConfParser
+
+    items = spec["items"]
+    if len(items) < 2:
+        return Out(nontrivial=False, classes=["fewer_than_two_settings"])
+    if all(it["in_conf"] for it in items) or not any(it["in_conf"] for it in items):
+        items = [dict(it, in_conf=(k % 2 == 0)) for k, it in enumerate(items)]
+    routes = {"all_tags": [True] * len(items), "all_options": [False] * len(items), "mixed": [it["in_conf"] for it in items]}
+    old_argv = sys.argv
+    buf = io.StringIO()
+    res, exits = {}, {}
+    try:
+        with contextlib.redirect_stderr(buf), contextlib.redirect_stdout(buf):
+            parser, _ = get_parser(load_phonopy_yaml=spec["load"])
+            for it in items:  # every option must exist for this command
+                try:
+                    parser.parse_args(_optargv(it))
+                except SystemExit:
+                    return Out(nontrivial=False, classes=["not_in_command"])
+            for name, where in routes.items():
+                argv = [a for it, c in zip(items, where) if not c for a in _optargv(it)]
+                lines = [_confline(it) for it, c in zip(items, where) if c]
+                sys.argv = ["phonopy"] + argv
+                td = tempfile.mkdtemp(prefix="c18-", dir=os.environ.get("VERIF_TMP", "/var/tmp"))
+                fn = os.path.join(td, "x.conf")
+                with open(fn, "w") as f:
+                    f.write("\n".join(lines) + "\n")
+                try:
+                    args = parser.parse_args(argv)
+                    res[name] = settings_dict(PhonopyConfParser(filename=fn if lines else None, args=args).settings)
+                except SystemExit:
+                    exits[name] = True
+                finally:
+                    shutil.rmtree(td, ignore_errors=True)
+    except Exception as e:
+        from vlib.case import short_tb
+
+        return Out(ok=False, msg="parsing %s raised %r\n%s" % (items, e, short_tb(e)))
+    finally:
+        sys.argv = old_argv
+    desc = "; ".join(("%s [conf]" % _confline(it)) if it["in_conf"] else ("%s [option]" % " ".join(_optargv(it))) for it in items)
+    if exits:
+        if len(exits) == 3:
+            return Out(nontrivial=False, rejected=True, classes=["all_routes_reject"])
+        return Out(ok=False, msg="settings {%s} are rejected by route(s) %s only (%s)" % (desc, sorted(exits), buf.getvalue()[-200:]))
+    for name in ("all_options", "mixed"):
+        a, b = res["all_tags"], res[name]
+        diff = {k: (a.get(k), b.get(k)) for k in set(a) | set(b) if repr(a.get(k)) != repr(b.get(k))}
+        if diff:
+            return Out(ok=False, msg="the same settings give different results when given as tags only and as %s {%s} (%s): %s"
+                       % (name, desc, "phonopy-load" if spec["load"] else "phonopy", diff))
+    return Out(ok=True, nontrivial=True, key=desc + "|%s" % spec["load"], classes=["n:%d" % len(items), "load" if spec["load"] else "phonopy"] +
+               ["tag:" + it["tag"].split("=")[0].strip() for it in items])
+
+
 # ----------------------------------------------------------------------------------------- workflows
 
 def cli(cmd, argv, cwd, timeout=300):
@@ -541,6 +644,8 @@ def compare_with_library(spec, ph, d, mode):
 SUBCHECKS = [
     Sub("tags", run=run_tags, strategy=tag_specs, examples={"quick": 2500, "thorough": 60000}, shards={"quick": 4, "thorough": 16}, builds=["omp"],
         what="every documented (option, tag) pair, both commands: configuration-file route and option route give the same Settings"),
+    Sub("tags_mixed", run=run_tags_mixed, strategy=mixed_specs, examples={"quick": 4000, "thorough": 100000}, shards={"quick": 4, "thorough": 16}, builds=["omp"],
+        what="2-4 documented settings at once: all as tags == all as options == any split between configuration file and command line"),
     Sub("workflows", run=run_workflow, strategy=wf_specs, examples={"quick": 128, "thorough": 3000}, shards={"quick": 16, "thorough": 16}, builds=["omp"],
         budget={"quick": 150, "thorough": 3000},
         what="real command runs (options and conf file) vs library calls: -d, mesh/thermal, band, q-points, dos/pdos, thermal displacements, write/read fc, phonopy.yaml reload"),
